@@ -63,6 +63,127 @@ theorem sendFee_spec {s s' : St} {d : Dir} {fee : Nat} (h : s.sendFee d fee = so
 theorem sendFee_zero (s : St) (d : Dir) : s.sendFee d 0 = some s := by
   simp [St.sendFee]
 
+theorem collectorCut_slk {s s' : St} {d : Dir} {fee rem : Nat}
+    (h : s.collectorCut d fee = some (s', rem)) : SameSlk s s' := by
+  unfold St.collectorCut at h
+  split at h
+  · generalize fee * _ / M = cutAmt at h
+    simp only [Option.bind_eq_bind, Option.bind_eq_some_iff, sub?_eq_some] at h
+    obtain ⟨r, ⟨hle, rfl⟩, h⟩ := h
+    split at h
+    · simp only [St.debitIn, Option.bind_eq_bind, Option.bind_eq_some_iff, sub?_eq_some,
+        Option.pure_def, Option.some.injEq, Prod.mk.injEq] at h
+      obtain ⟨s1, ⟨b, ⟨hb, rfl⟩, rfl⟩, rfl, rfl⟩ := h
+      cases d <;> exact ⟨rfl, rfl⟩
+    · simp only [Option.pure_def, Option.some.injEq, Prod.mk.injEq] at h
+      obtain ⟨rfl, rfl⟩ := h
+      exact SameSlk.refl s
+  · simp only [Option.pure_def, Option.some.injEq, Prod.mk.injEq] at h
+    obtain ⟨rfl, rfl⟩ := h
+    exact SameSlk.refl s
+
+/-- `send_fee` never touches simple-lock's holdings -/
+theorem sendFee_slk {s s' : St} {d : Dir} {fee : Nat} (h : s.sendFee d fee = some s') :
+    SameSlk s s' := by
+  unfold St.sendFee at h
+  split at h
+  · simp only [Option.some.injEq] at h
+    subst h
+    exact SameSlk.refl s
+  · simp only [Option.bind_eq_bind, Option.bind_eq_some_iff] at h
+    obtain ⟨⟨s1, rem⟩, hc, h⟩ := h
+    have h1 := collectorCut_slk hc
+    simp only at h
+    split at h
+    · simp only [Option.pure_def, Option.some.injEq] at h
+      subst h
+      exact h1
+    · split at h
+      · simp only [Option.pure_def, Option.some.injEq] at h
+        subst h
+        exact h1
+      · exact h1.trans (feeSlices_slk _ h)
+
+/-! ### output locking (`build_swap_output_payments` through simple-lock) -/
+
+theorem addSlkOut_rin (s : St) (d : Dir) (n : Nat) : (s.addSlkOut d n).rin d = s.rin d := by
+  cases d <;> rfl
+theorem addSlkOut_rout (s : St) (d : Dir) (n : Nat) : (s.addSlkOut d n).rout d = s.rout d := by
+  cases d <;> rfl
+theorem addSlkOut_balIn (s : St) (d : Dir) (n : Nat) : (s.addSlkOut d n).balIn d = s.balIn d := by
+  cases d <;> rfl
+theorem addSlkOut_balOut (s : St) (d : Dir) (n : Nat) : (s.addSlkOut d n).balOut d = s.balOut d := by
+  cases d <;> rfl
+theorem addSlkOut_slkOut (s : St) (d : Dir) (n : Nat) :
+    (s.addSlkOut d n).slkOut d = s.slkOut d + n := by
+  cases d <;> rfl
+theorem addSlkOut_slkIn (s : St) (d : Dir) (n : Nat) : (s.addSlkOut d n).slkIn d = s.slkIn d := by
+  cases d <;> rfl
+theorem addSlkOut_zero (s : St) (d : Dir) : s.addSlkOut d 0 = s := by
+  cases d <;> rfl
+
+/-- crediting simple-lock's holdings is invisible to `FeeRel` -/
+theorem FeeRel.addSlkOut {d : Dir} {a b : St} {x : Nat} (h : FeeRel d a b x) (n : Nat) :
+    FeeRel d a (b.addSlkOut d n) x := by
+  obtain ⟨h1, h2, h3, h4, h5, h6, h7, h8, h9⟩ := h
+  refine ⟨?_, ?_, ?_, ?_, ?_, ?_, ?_, ?_, ?_⟩
+  · rw [addSlkOut_rin, addSlkOut_balIn]; exact h1
+  · rw [addSlkOut_rout, addSlkOut_balOut]; exact h2
+  · rw [addSlkOut_rin]; exact h3
+  · rw [addSlkOut_rout]; exact h4
+  · rw [addSlkOut_rout]; exact h5
+  · rw [addSlkOut_balIn]; exact h6
+  · rw [addSlkOut_balOut]; exact h7
+  · rw [addSlkOut_rin, addSlkOut_rout]; exact h8
+  · cases d <;> exact h9
+
+/-- states with the same epoch and locking configuration lock alike -/
+theorem SameCfg.lockOn {s s' : St} (h : SameCfg s s') : s'.lockOn = s.lockOn := by
+  obtain ⟨_, _, _, _, _, _, _, _, _, _, _, _, h13, _, _, h16⟩ := h
+  simp only [St.lockOn, h13, h16]
+theorem SameCfg.locksOut {s s' : St} (h : SameCfg s s') : s'.locksOut = s.locksOut := by
+  have h0 := h.lockOn
+  obtain ⟨_, _, _, _, _, _, _, _, _, _, _, _, _, h14, _, h16⟩ := h
+  simp only [St.locksOut, h0, h14, h16]
+theorem SameCfg.lockSc {s s' : St} (h : SameCfg s s') : s'.lockSc = s.lockSc := h.2.2.2.2.2.2.2.2.2.2.2.2.2.2.1
+
+/-- the first output payment of a swap: whether it is delivered as LOCKED tokens, the guard on
+    the locking address, and the credit of simple-lock's holdings -/
+theorem lockOut_spec {s s' : St} {d : Dir} {out : Nat} {lk : Bool}
+    (h : s.lockOut d out = some (s', lk)) :
+    lk = s.locksOut ∧ (s.lockOn = true → s.lockSc = .simpleLock) ∧
+    s' = s.addSlkOut d (if lk then out else 0) := by
+  unfold St.lockOut at h
+  split at h
+  · rename_i hon
+    simp only [Option.bind_eq_bind, Option.bind_eq_some_iff, req_eq_some] at h
+    obtain ⟨_, hsc, h⟩ := h
+    split at h
+    · rename_i hu
+      simp only [Option.pure_def, Option.some.injEq, Prod.mk.injEq] at h
+      obtain ⟨rfl, rfl⟩ := h
+      refine ⟨?_, fun _ => hsc, by simp⟩
+      simp [St.locksOut, hon, hu]
+    · rename_i hu
+      simp only [Option.pure_def, Option.some.injEq, Prod.mk.injEq] at h
+      obtain ⟨rfl, rfl⟩ := h
+      refine ⟨?_, fun _ => hsc, by simp [addSlkOut_zero]⟩
+      simp [St.locksOut, hu]
+  · rename_i hoff
+    simp only [Option.pure_def, Option.some.injEq, Prod.mk.injEq] at h
+    obtain ⟨rfl, rfl⟩ := h
+    refine ⟨?_, fun hon => absurd hon hoff, by simp [addSlkOut_zero]⟩
+    simp [St.locksOut, hoff]
+
+/-- the only guard of the locking step: while locking is on, the locking address is simple-lock -/
+theorem lockOut_ok (s : St) (d : Dir) (out : Nat)
+    (h : s.lockOn = true → s.lockSc = .simpleLock) :
+    s.lockOut d out = some (s.addSlkOut d (if s.locksOut then out else 0), s.locksOut) := by
+  unfold St.lockOut St.locksOut
+  by_cases hon : s.lockOn = true
+  · by_cases hu : s.epoch < s.lockUnlockEpoch <;> simp [hon, h hon, req, hu, addSlkOut_zero]
+  · simp [hon, addSlkOut_zero]
+
 /-! ### the state between "reserves updated" and "fee routed" in a swap -/
 
 /-- reserves updated with the net input, payment received on the balance -/
@@ -73,11 +194,25 @@ def swapMid (s : St) (d : Dir) (charged fee out : Nat) : St :=
 /-- the fee a swap of `charged` takes out of the input before it enters the reserve -/
 def swapFee (s : St) (charged : Nat) : Nat := if s.feeOn then specialFee s.special charged else 0
 
+/-- the intermediate swap state has the epoch, the locking configuration and simple-lock's
+    holdings of `s` -/
+theorem swapMid_locksOut (s : St) (d : Dir) (c f o : Nat) :
+    (swapMid s d c f o).locksOut = s.locksOut := by
+  cases d <;> rfl
+theorem swapMid_lockOn (s : St) (d : Dir) (c f o : Nat) :
+    (swapMid s d c f o).lockOn = s.lockOn := by
+  cases d <;> rfl
+theorem swapMid_lockSc (s : St) (d : Dir) (c f o : Nat) :
+    (swapMid s d c f o).lockSc = s.lockSc := by
+  cases d <;> rfl
+theorem swapMid_slk (s : St) (d : Dir) (c f o : Nat) : SameSlk s (swapMid s d c f o) := by
+  cases d <;> exact ⟨rfl, rfl⟩
+
 theorem swapIn_spec {s s' : St} {d : Dir} {a minOut : Nat} {o : Out}
     (h : swapIn s d a minOut = some (s', o)) :
     ∃ s3 spent,
       0 < minOut ∧ 0 < a ∧ s.status = .active ∧ minOut < s.rout d ∧
-      o = ⟨amountOut s.total a (s.rin d) (s.rout d), 0, 0⟩ ∧
+      o = ⟨amountOut s.total a (s.rin d) (s.rout d), 0, 0, s.locksOut⟩ ∧
       minOut ≤ o.v1 ∧ o.v1 < s.rout d ∧ o.v1 ≠ 0 ∧
       swapFee s a ≤ a ∧
       s.r1 * s.r2 ≤ (swapMid s d a (swapFee s a) o.v1).r1 * (swapMid s d a (swapFee s a) o.v1).r2 ∧
@@ -88,9 +223,12 @@ theorem swapIn_spec {s s' : St} {d : Dir} {a minOut : Nat} {o : Out}
   simp only [swapIn, Option.bind_eq_bind, Option.bind_eq_some_iff, req_eq_some, sub?_eq_some,
     St.debitOut, Option.pure_def, Option.some.injEq, Prod.mk.injEq] at h
   obtain ⟨_, h1, _, h2, _, h3, _, h4, _, h5, _, h6, _, h7, aAfter, ⟨h8, rfl⟩, _, h9, s3, h10,
-    s4, ⟨b, ⟨h11, rfl⟩, rfl⟩, rfl, rfl⟩ := h
+    ⟨s4, lk⟩, hlk, s5, ⟨b, ⟨h11, rfl⟩, rfl⟩, rfl, rfl⟩ := h
   obtain ⟨spent, hs, hrel⟩ := sendFee_spec h10
-  refine ⟨s3, spent, h1, h2, h3, h4, rfl, h5, h6, h7, h8, ?_, hs, hrel, h11, rfl⟩
+  obtain ⟨rfl, _, rfl⟩ := lockOut_spec hlk
+  have hlo : s3.locksOut = s.locksOut :=
+    hrel.same.locksOut.trans (swapMid_locksOut s d a (swapFee s a) _)
+  refine ⟨_, spent, h1, h2, h3, h4, by rw [hlo], h5, h6, h7, h8, ?_, hs, hrel.addSlkOut _, h11, rfl⟩
   cases d <;> simpa [swapMid, swapFee, St.setR, St.setBal, St.touch] using h9
 
 theorem swapOut_spec {s s' : St} {d : Dir} {maxIn out : Nat} {o : Out}
@@ -98,7 +236,8 @@ theorem swapOut_spec {s s' : St} {d : Dir} {maxIn out : Nat} {o : Out}
     ∃ s3 spent,
       0 < out ∧ 0 < maxIn ∧ s.status = .active ∧ out < s.rout d ∧
       (s.rout d - out) * (M - s.total) ≠ 0 ∧
-      o = ⟨out, amountIn s.total out (s.rin d) (s.rout d), maxIn - amountIn s.total out (s.rin d) (s.rout d)⟩ ∧
+      o = ⟨out, amountIn s.total out (s.rin d) (s.rout d),
+            maxIn - amountIn s.total out (s.rin d) (s.rout d), s.locksOut⟩ ∧
       o.v2 ≤ maxIn ∧ o.v2 ≠ 0 ∧
       swapFee s o.v2 ≤ o.v2 ∧
       s.r1 * s.r2 ≤ (swapMid s d o.v2 (swapFee s o.v2) out).r1 * (swapMid s d o.v2 (swapFee s o.v2) out).r2 ∧
@@ -109,9 +248,13 @@ theorem swapOut_spec {s s' : St} {d : Dir} {maxIn out : Nat} {o : Out}
   simp only [swapOut, Option.bind_eq_bind, Option.bind_eq_some_iff, req_eq_some, sub?_eq_some,
     St.debitOut, Option.pure_def, Option.some.injEq, Prod.mk.injEq] at h
   obtain ⟨_, h1, _, h2, _, h3, _, h4, _, h5, _, h6, _, h7, aAfter, ⟨h8, rfl⟩, _, h9, s3, h10,
-    s4, ⟨b, ⟨h11, rfl⟩, rfl⟩, rfl, rfl⟩ := h
+    ⟨s4, lk⟩, hlk, s5, ⟨b, ⟨h11, rfl⟩, rfl⟩, rfl, rfl⟩ := h
   obtain ⟨spent, hs, hrel⟩ := sendFee_spec h10
-  refine ⟨s3, spent, h1, h2, h3, h4, h5, rfl, h6, h7, h8, ?_, hs, hrel, h11, rfl⟩
+  obtain ⟨rfl, _, rfl⟩ := lockOut_spec hlk
+  have hlo : s3.locksOut = s.locksOut :=
+    hrel.same.locksOut.trans (swapMid_locksOut s d (amountIn s.total out (s.rin d) (s.rout d))
+      (swapFee s (amountIn s.total out (s.rin d) (s.rout d))) out)
+  refine ⟨_, spent, h1, h2, h3, h4, h5, by rw [hlo], h6, h7, h8, ?_, hs, hrel.addSlkOut _, h11, rfl⟩
   cases d <;> simpa [swapMid, swapFee, St.setR, St.setBal, St.touch] using h9
 
 end Mx.Pair
@@ -132,7 +275,7 @@ set_option maxRecDepth 8000 in
 theorem addInitial_spec {s s' : St} {c a1 a2 : Nat} {o : Out}
     (h : addInitial s c a1 a2 = some (s', o)) :
     (s.adder = none ∨ s.adder = some c) ∧ 0 < a1 ∧ 0 < a2 ∧ s.status = .inactive ∧ s.S = 0 ∧
-    MINLIQ < min a1 a2 ∧ o = ⟨min a1 a2 - MINLIQ, a1, a2⟩ ∧
+    MINLIQ < min a1 a2 ∧ o = ⟨min a1 a2 - MINLIQ, a1, a2, false⟩ ∧
     s' = { ({ s with S := min a1 a2, r1 := s.r1 + a1, r2 := s.r2 + a2,
                      lpCirc := s.lpCirc + min a1 a2, lpOwn := s.lpOwn + MINLIQ,
                      bal1 := s.bal1 + a1, bal2 := s.bal2 + a2 } : St) with
@@ -167,7 +310,7 @@ theorem addLiq_spec {s s' : St} {a1 a2 m1 m2 : Nat} {o : Out} (hS : s.S ≠ 0)
     ∃ o1 o2,
       0 < m1 ∧ 0 < m2 ∧ 0 < a1 ∧ 0 < a2 ∧ (s.status = .active ∨ s.status = .partialActive) ∧
       s.r1 ≠ 0 ∧ s.r2 ≠ 0 ∧ optimal s a1 a2 m1 m2 = some (o1, o2) ∧
-      o = ⟨min (o1 * s.S / s.r1) (o2 * s.S / s.r2), o1, o2⟩ ∧ 0 < o.v1 ∧
+      o = ⟨min (o1 * s.S / s.r1) (o2 * s.S / s.r2), o1, o2, false⟩ ∧ 0 < o.v1 ∧
       s.r1 * s.r2 ≤ (s.r1 + o1) * (s.r2 + o2) ∧
       s' = { s.touch with S := s.S + o.v1, r1 := s.r1 + o1, r2 := s.r2 + o2,
                           lpCirc := s.lpCirc + o.v1, bal1 := s.bal1 + o1, bal2 := s.bal2 + o2 } := by
@@ -184,7 +327,7 @@ set_option maxRecDepth 8000 in
 theorem addLiq_first_spec {s s' : St} {a1 a2 m1 m2 : Nat} {o : Out} (hS : s.S = 0)
     (h : addLiq s a1 a2 m1 m2 = some (s', o)) :
     0 < a1 ∧ 0 < a2 ∧ (s.status = .active ∨ s.status = .partialActive) ∧ s.adder = none ∧
-    MINLIQ < min a1 a2 ∧ o = ⟨min a1 a2 - MINLIQ, a1, a2⟩ ∧
+    MINLIQ < min a1 a2 ∧ o = ⟨min a1 a2 - MINLIQ, a1, a2, false⟩ ∧
     s' = { s.touch with
             S := min a1 a2, r1 := s.r1 + a1, r2 := s.r2 + a2,
             lpCirc := s.lpCirc + min a1 a2, lpOwn := s.lpOwn + MINLIQ,
@@ -213,7 +356,7 @@ theorem amountsRemoved_spec {s : St} {lp m1 m2 x1 x2 : Nat}
 theorem removeLiq_spec {s s' : St} {lp m1 m2 : Nat} {o : Out}
     (h : removeLiq s lp m1 m2 = some (s', o)) :
     0 < m1 ∧ 0 < m2 ∧ (s.status = .active ∨ s.status = .partialActive) ∧ 0 < lp ∧
-    lp + MINLIQ ≤ s.S ∧ o = ⟨lp * s.r1 / s.S, lp * s.r2 / s.S, 0⟩ ∧
+    lp + MINLIQ ≤ s.S ∧ o = ⟨lp * s.r1 / s.S, lp * s.r2 / s.S, 0, false⟩ ∧
     0 < o.v1 ∧ m1 ≤ o.v1 ∧ o.v1 < s.r1 ∧ 0 < o.v2 ∧ m2 ≤ o.v2 ∧ o.v2 < s.r2 ∧
     lp ≤ s.lpCirc ∧ o.v1 ≤ s.bal1 ∧ o.v2 ≤ s.bal2 ∧
     s' = { s.touch with S := s.S - lp, r1 := s.r1 - o.v1, r2 := s.r2 - o.v2,
@@ -228,7 +371,7 @@ theorem removeLiq_spec {s s' : St} {lp m1 m2 : Nat} {o : Out}
 theorem swapNoFee_spec {s s' : St} {c : Nat} {d : Dir} {a : Nat} {o : Out}
     (h : swapNoFee s c d a = some (s', o)) :
     c ∈ s.wl ∧ 0 < a ∧ s.status = .active ∧ s.rin d ≠ 0 ∧
-    o = ⟨amountOutNoFee a (s.rin d) (s.rout d), 0, 0⟩ ∧ o.v1 < s.rout d ∧ o.v1 ≠ 0 ∧
+    o = ⟨amountOutNoFee a (s.rin d) (s.rout d), 0, 0, false⟩ ∧ o.v1 < s.rout d ∧ o.v1 ≠ 0 ∧
     o.v1 ≤ s.balOut d ∧
     s' = (((s.touch.setR d (s.rin d + a) (s.rout d - o.v1)).setBal d (s.balIn d + a)
             (s.balOut d - o.v1))).addBurnOut d o.v1 := by
@@ -251,7 +394,7 @@ theorem swapNoFee_spec {s s' : St} {c : Nat} {d : Dir} {a : Nat} {o : Out}
 theorem buyback_spec {s s' : St} {c lp : Nat} {w : Want} {o : Out}
     (h : buyback s c lp w = some (s', o)) :
     ∃ s2,
-      c ∈ s.wl ∧ 0 < lp ∧ lp + MINLIQ ≤ s.S ∧ o = ⟨lp * s.r1 / s.S, lp * s.r2 / s.S, 0⟩ ∧
+      c ∈ s.wl ∧ 0 < lp ∧ lp + MINLIQ ≤ s.S ∧ o = ⟨lp * s.r1 / s.S, lp * s.r2 / s.S, 0, false⟩ ∧
       0 < o.v1 ∧ o.v1 < s.r1 ∧ 0 < o.v2 ∧ o.v2 < s.r2 ∧ lp ≤ s.lpCirc ∧
       FeeRel .ab { s.touch with S := s.S - lp, r1 := s.r1 - o.v1, r2 := s.r2 - o.v2,
                                 lpCirc := s.lpCirc - lp } s2 o.v1 ∧
@@ -270,12 +413,76 @@ namespace Mx.Pair
 theorem swapIn_sendFee {s s' : St} {d : Dir} {a minOut : Nat} {o : Out}
     (h : swapIn s d a minOut = some (s', o)) :
     ∃ s3, (swapMid s d a (swapFee s a) o.v1).sendFee d (swapFee s a) = some s3 ∧
-      s' = s3.setBal d (s3.balIn d) (s3.balOut d - o.v1) := by
+      s' = (s3.addSlkOut d o.lockedAmt).setBal d (s3.balIn d) (s3.balOut d - o.v1) := by
   simp only [swapIn, Option.bind_eq_bind, Option.bind_eq_some_iff, req_eq_some, sub?_eq_some,
     St.debitOut, Option.pure_def, Option.some.injEq, Prod.mk.injEq] at h
   obtain ⟨_, h1, _, h2, _, h3, _, h4, _, h5, _, h6, _, h7, aAfter, ⟨h8, rfl⟩, _, h9, s3, h10,
-    s4, ⟨b, ⟨h11, rfl⟩, rfl⟩, rfl, rfl⟩ := h
-  exact ⟨s3, h10, rfl⟩
+    ⟨s4, lk⟩, hlk, s5, ⟨b, ⟨h11, rfl⟩, rfl⟩, rfl, rfl⟩ := h
+  obtain ⟨_, _, rfl⟩ := lockOut_spec hlk
+  refine ⟨s3, h10, ?_⟩
+  rw [addSlkOut_balIn, addSlkOut_balOut]
+  rfl
+
+end Mx.Pair
+
+namespace Mx.Pair
+
+/-! ### what a swap does to the locking side: the guard and simple-lock's holdings -/
+
+theorem setBal_slkOut (s : St) (d : Dir) (a b : Nat) : (s.setBal d a b).slkOut d = s.slkOut d := by
+  cases d <;> rfl
+theorem setBal_slkIn (s : St) (d : Dir) (a b : Nat) : (s.setBal d a b).slkIn d = s.slkIn d := by
+  cases d <;> rfl
+theorem SameSlk.slkOut {s s' : St} (h : SameSlk s s') (d : Dir) : s'.slkOut d = s.slkOut d := by
+  cases d
+  · exact h.2
+  · exact h.1
+theorem SameSlk.slkIn {s s' : St} (h : SameSlk s s') (d : Dir) : s'.slkIn d = s.slkIn d := by
+  cases d
+  · exact h.1
+  · exact h.2
+
+/-- fixed input: while locking is on the locking address must be simple-lock; simple-lock's
+    holdings of the output token grow by exactly the LOCKED amount delivered, its holdings of
+    the input token do not move -/
+theorem swapIn_lock_spec {s s' : St} {d : Dir} {a minOut : Nat} {o : Out}
+    (h : swapIn s d a minOut = some (s', o)) :
+    (s.lockOn = true → s.lockSc = .simpleLock) ∧
+    s'.slkOut d = s.slkOut d + o.lockedAmt ∧ s'.slkIn d = s.slkIn d := by
+  simp only [swapIn, Option.bind_eq_bind, Option.bind_eq_some_iff, req_eq_some, sub?_eq_some,
+    St.debitOut, Option.pure_def, Option.some.injEq, Prod.mk.injEq] at h
+  obtain ⟨_, h1, _, h2, _, h3, _, h4, _, h5, _, h6, _, h7, aAfter, ⟨h8, rfl⟩, _, h9, s3, h10,
+    ⟨s4, lk⟩, hlk, s5, ⟨b, ⟨h11, rfl⟩, rfl⟩, rfl, rfl⟩ := h
+  obtain ⟨_, hs, hrel⟩ := sendFee_spec h10
+  have hslk := (swapMid_slk s d a (swapFee s a) (amountOut s.total a (s.rin d) (s.rout d))).trans
+    (sendFee_slk h10)
+  obtain ⟨_, hsc, rfl⟩ := lockOut_spec hlk
+  refine ⟨fun hon => ?_, ?_, ?_⟩
+  · have := hsc ((hrel.same.lockOn.trans (swapMid_lockOn s d a (swapFee s a) _)).trans hon)
+    exact (hrel.same.lockSc.trans (swapMid_lockSc s d a (swapFee s a) _)).symm.trans this
+  · rw [setBal_slkOut, addSlkOut_slkOut, hslk.slkOut]; rfl
+  · rw [setBal_slkIn, addSlkOut_slkIn, hslk.slkIn]
+
+/-- fixed output: same statement -/
+theorem swapOut_lock_spec {s s' : St} {d : Dir} {maxIn out : Nat} {o : Out}
+    (h : swapOut s d maxIn out = some (s', o)) :
+    (s.lockOn = true → s.lockSc = .simpleLock) ∧
+    s'.slkOut d = s.slkOut d + o.lockedAmt ∧ s'.slkIn d = s.slkIn d := by
+  simp only [swapOut, Option.bind_eq_bind, Option.bind_eq_some_iff, req_eq_some, sub?_eq_some,
+    St.debitOut, Option.pure_def, Option.some.injEq, Prod.mk.injEq] at h
+  obtain ⟨_, h1, _, h2, _, h3, _, h4, _, h5, _, h6, _, h7, aAfter, ⟨h8, rfl⟩, _, h9, s3, h10,
+    ⟨s4, lk⟩, hlk, s5, ⟨b, ⟨h11, rfl⟩, rfl⟩, rfl, rfl⟩ := h
+  obtain ⟨_, hs, hrel⟩ := sendFee_spec h10
+  have hslk := (swapMid_slk s d (amountIn s.total out (s.rin d) (s.rout d))
+    (swapFee s (amountIn s.total out (s.rin d) (s.rout d))) out).trans (sendFee_slk h10)
+  obtain ⟨_, hsc, rfl⟩ := lockOut_spec hlk
+  refine ⟨fun hon => ?_, ?_, ?_⟩
+  · have := hsc ((hrel.same.lockOn.trans (swapMid_lockOn s d (amountIn s.total out (s.rin d) (s.rout d))
+      (swapFee s (amountIn s.total out (s.rin d) (s.rout d))) out)).trans hon)
+    exact (hrel.same.lockSc.trans (swapMid_lockSc s d (amountIn s.total out (s.rin d) (s.rout d))
+      (swapFee s (amountIn s.total out (s.rin d) (s.rout d))) out)).symm.trans this
+  · rw [setBal_slkOut, addSlkOut_slkOut, hslk.slkOut]; rfl
+  · rw [setBal_slkIn, addSlkOut_slkIn, hslk.slkIn]
 
 end Mx.Pair
 
@@ -298,5 +505,38 @@ theorem setBal_balIn (s : St) (d : Dir) (a b : Nat) : (s.setBal d a b).balIn d =
   cases d <;> rfl
 theorem setBal_balOut (s : St) (d : Dir) (a b : Nat) : (s.setBal d a b).balOut d = b := by
   cases d <;> rfl
+
+end Mx.Pair
+
+namespace Mx.Pair
+
+/-- the owner-only locking setters change the locking configuration and nothing else -/
+theorem lockCfg_spec {s s' : St} {ow : Bool} {o : LockOp} (h : lockCfg s ow o = some s') :
+    ow = true ∧ ∃ dl ul sc,
+      s' = { s with lockDeadline := dl, lockUnlockEpoch := ul, lockSc := sc } := by
+  cases o <;>
+    simp only [lockCfg, Option.bind_eq_bind, Option.bind_eq_some_iff, req_eq_some,
+      Option.pure_def, Option.some.injEq] at h
+  case setDeadline e => obtain ⟨_, h1, rfl⟩ := h; exact ⟨h1, e, _, _, rfl⟩
+  case setUnlock e => obtain ⟨_, h1, rfl⟩ := h; exact ⟨h1, _, e, _, rfl⟩
+  case setSc a => obtain ⟨_, h1, _, _, rfl⟩ := h; exact ⟨h1, _, _, _, rfl⟩
+
+/-- `step` on a locking setter or on the epoch clock: only the locking configuration / the
+    epoch can differ afterwards -/
+theorem step_lock_spec {s s' : St} {ow : Bool} {o : LockOp} {out : Out}
+    (h : step s (.lock ow o) = some (s', out)) :
+    ∃ dl ul sc, s' = { s with lockDeadline := dl, lockUnlockEpoch := ul, lockSc := sc } := by
+  simp only [step, Option.map_eq_some_iff, Prod.mk.injEq] at h
+  obtain ⟨s1, h1, rfl, _⟩ := h
+  exact (lockCfg_spec h1).2
+
+theorem step_epoch_spec {s s' : St} {e : Nat} {out : Out}
+    (h : step s (.epoch e) = some (s', out)) : s.epoch ≤ e ∧ s' = { s with epoch := e } := by
+  simp only [step] at h
+  split at h
+  · rename_i hle
+    simp only [Option.some.injEq, Prod.mk.injEq] at h
+    exact ⟨hle, h.1.symm⟩
+  · simp at h
 
 end Mx.Pair
